@@ -80,6 +80,13 @@ def gen(seed: int, tier: str) -> dict[str, Any]:
     elif rng.random() < 0.3:
         # the connection is cut and every reconnect is answered by an attacker replaying the recorded session
         ops.append({"t": round(rng.uniform(0.3, horizon), 6), "op": "replay_attack"})
+    if rng.random() < 0.08:
+        # a session that has sent almost 2^48 frames (harness seam: the send counter of the established session is moved to the
+        # end of its range): the last numbers go out, then sending fails - a number is never used twice under one session key
+        tj = round(rng.uniform(0.3, max(0.4, horizon - 0.5)), 6)
+        ops.append({"t": tj, "op": "seq_exhaust", "left": rng.choice([0, 1, 2, 3])})
+        for i in range(rng.choice([2, 4, 6])):
+            ops.append({"t": round(tj + 0.01 + 0.05 * i, 6), "op": "send", "id": 600 + i})
     ops.sort(key=lambda o: o["t"])
     cfg = {"chunk": rng.choice([None, None, 1, 5, 7, 33]), "horizon": horizon, "batch": 1,
            "bad_dev_mac": (not clean) and rng.random() < 0.05, "auth_fail": (not clean) and rng.random() < 0.05,
@@ -357,6 +364,13 @@ def run(plan: dict[str, Any]) -> dict[str, Any]:
                 inject(op)
             elif op["op"] == "send":
                 tasks.append(loop.create_task(do_send(op["id"])))
+            elif op["op"] == "seq_exhaust":
+                sess = getattr(tunnel, "transport", None)
+                if isinstance(getattr(sess, "_sequence_number", None), int) and getattr(sess, "initialized", False):
+                    sess._sequence_number = max(sess._sequence_number, 2 ** 48 - op["left"])
+                    R.extra_faults["send_counter_moved_to_the_end_of_its_range"] += 1
+                else:
+                    R.probes["send_counter_seam_unavailable"] += 1
             elif op["op"] == "server_close":
                 s = gw.current_session()
                 if s is not None:
@@ -372,7 +386,7 @@ def run(plan: dict[str, Any]) -> dict[str, Any]:
                     gw.on_close(s.conn)
 
         for op in plan["ops"]:
-            if op["op"] in ("inject", "send", "server_close", "replay_attack"):
+            if op["op"] in ("inject", "send", "server_close", "replay_attack", "seq_exhaust"):
                 loop.at(t0 + op["t"], (lambda o=op: do(o)), label="op")
         await asyncio.sleep(cfg["horizon"] + 2.0)
         try:
@@ -446,6 +460,15 @@ def run(plan: dict[str, Any]) -> dict[str, Any]:
     # client side, judged by the gateway
     for (clause, sig, detail) in gw.violations:
         R.violate(clause, sig, detail)
+    if R.extra_faults.get("send_counter_moved_to_the_end_of_its_range"):
+        # with an exhausted counter not even the SessionStatus CLOSE of the clean-up can be wrapped: the overflow error then
+        # leaves whatever callback runs the clean-up. Reachable through the harness seam only (2^48 frames): recorded, not judged
+        def _overflow(e):
+            return e.get("type") == "IPSecureError" and "overflow" in str(e.get("msg", e.get("message", "")))
+        n0 = len(R.net.protocol_escapes) + len(R.loop.escapes)
+        R.net.protocol_escapes[:] = [e for e in R.net.protocol_escapes if not _overflow(e)]
+        R.loop.escapes[:] = [e for e in R.loop.escapes if not _overflow(e)]
+        R.probes["clean_up_failed_with_exhausted_send_counter"] += n0 - len(R.net.protocol_escapes) - len(R.loop.escapes)
     R.check_escapes("C29.no-escape")
     R.probes["client_wrappers_verified"] += gw.wrappers_checked
     R.probes["auth_macs_verified"] += gw.auth_mac_checked
